@@ -6,7 +6,9 @@ package p2j
 // unmarshalSingular, numeric kinds: the number handed to the formatter is the value the wire encodes for the
 // field's kind — zig-zag for sint32/sint64, sign-extended for int32/sfixed32/enum, zero-extended for the unsigned
 // 32-bit kinds; 64-bit signed kinds as they are. (uint64/fixed64 go through strconv.AppendUint, whose assumed contract is in specs/ext/strconv;
-// string/bytes/message/float are excluded by precondition.)
+// string/bytes/message/float are excluded by precondition.) The per-kind clauses are `local` (proved here, not handed to
+// callers): unmarshalList needs only that a successful element consumes input, that the output only grows and that
+// the frame is kept.
 //@ pure jvar(t proto.Type, v uint64) int64 = ite(t == proto.INT32 || t == proto.ENUM, int64(int32(v)), ite(t == proto.SINT32, int64(protowire.unzz32(uint32(v))), \
 //@      ite(t == proto.UINT32, int64(uint32(v)), ite(t == proto.SINT64, protowire.unzz(v), int64(v)))))
 //@ pure isjvar(t proto.Type) bool = t == proto.INT32 || t == proto.ENUM || t == proto.SINT32 || t == proto.UINT32 || t == proto.SINT64 || t == proto.INT64
@@ -18,26 +20,55 @@ package p2j
 //@   requires kind: fd.typ != proto.MESSAGE && fd.typ != proto.STRING && fd.typ != proto.BYTE && \
 //@       fd.typ != proto.FLOAT      // written as disequalities so that the excluded branches are pruned (float32 -> float64 widening is outside the engine's arithmetic)
 //@   requires plain: !self.opts.Int642String
-//@   ensures vbad: isjvar(fd.typ) && old(binary.tagl(p)) == 0 ==> err != nil && len(*out) == old(len(*out))
-//@   ensures vadv: isjvar(fd.typ) && old(binary.tagl(p)) > 0 ==> err == nil && p.Read == old(p.Read) + old(binary.tagl(p))
-//@   ensures vlen: isjvar(fd.typ) && old(binary.tagl(p)) > 0 ==> len(*out) == old(len(*out)) + json.i64len(jvar(fd.typ, old(binary.tagv(p))))
-//@   ensures vdigits: isjvar(fd.typ) && old(binary.tagl(p)) > 0 ==> forall k :: 0 <= k && k < json.i64len(jvar(fd.typ, old(binary.tagv(p)))) ==> \
+//@   ensures local vbad: isjvar(fd.typ) && old(binary.tagl(p)) == 0 ==> err != nil && len(*out) == old(len(*out))
+//@   ensures local vadv: isjvar(fd.typ) && old(binary.tagl(p)) > 0 ==> err == nil && p.Read == old(p.Read) + old(binary.tagl(p))
+//@   ensures local vlen: isjvar(fd.typ) && old(binary.tagl(p)) > 0 ==> len(*out) == old(len(*out)) + json.i64len(jvar(fd.typ, old(binary.tagv(p))))
+//@   ensures local vdigits: isjvar(fd.typ) && old(binary.tagl(p)) > 0 ==> forall k :: 0 <= k && k < json.i64len(jvar(fd.typ, old(binary.tagv(p)))) ==> \
 //@       (*out)[old(len(*out)) + k] == json.i64dig(jvar(fd.typ, old(binary.tagv(p))), k)
-//@   ensures sf32: fd.typ == proto.SFIX32 && err == nil ==> len(*out) == old(len(*out)) + json.i64len(int64(int32(protowire.le32(p.Buf, old(p.Read)))))
-//@   ensures f32: fd.typ == proto.FIX32 && err == nil ==> len(*out) == old(len(*out)) + json.i64len(int64(protowire.le32(p.Buf, old(p.Read))))
-//@   ensures sf64: fd.typ == proto.SFIX64 && err == nil ==> len(*out) == old(len(*out)) + json.i64len(int64(protowire.le64(p.Buf, old(p.Read))))
-//@   ensures dlen: fd.typ == proto.DOUBLE && old(p.Read) + 8 <= len(p.Buf) ==> err == nil && p.Read == old(p.Read) + 8 && \
+//@   ensures local sf32: fd.typ == proto.SFIX32 && err == nil ==> len(*out) == old(len(*out)) + json.i64len(int64(int32(protowire.le32(p.Buf, old(p.Read)))))
+//@   ensures local f32: fd.typ == proto.FIX32 && err == nil ==> len(*out) == old(len(*out)) + json.i64len(int64(protowire.le32(p.Buf, old(p.Read))))
+//@   ensures local sf64: fd.typ == proto.SFIX64 && err == nil ==> len(*out) == old(len(*out)) + json.i64len(int64(protowire.le64(p.Buf, old(p.Read))))
+//@   ensures local dlen: fd.typ == proto.DOUBLE && old(p.Read) + 8 <= len(p.Buf) ==> err == nil && p.Read == old(p.Read) + 8 && \
 //@       len(*out) == old(len(*out)) + json.f64len(protowire.le64(p.Buf, old(p.Read)))
-//@   ensures ddigits: fd.typ == proto.DOUBLE && old(p.Read) + 8 <= len(p.Buf) ==> forall k :: 0 <= k && k < json.f64len(protowire.le64(p.Buf, old(p.Read))) ==> \
+//@   ensures local ddigits: fd.typ == proto.DOUBLE && old(p.Read) + 8 <= len(p.Buf) ==> forall k :: 0 <= k && k < json.f64len(protowire.le64(p.Buf, old(p.Read))) ==> \
 //@       (*out)[old(len(*out)) + k] == json.f64dig(protowire.le64(p.Buf, old(p.Read)), k)
-//@   ensures btrue: fd.typ == proto.BOOL && old(binary.tagl(p)) > 0 && old(binary.tagv(p)) == 1 ==> err == nil && len(*out) == old(len(*out)) + 4 && \
+//@   ensures local btrue: fd.typ == proto.BOOL && old(binary.tagl(p)) > 0 && old(binary.tagv(p)) == 1 ==> err == nil && len(*out) == old(len(*out)) + 4 && \
 //@       (*out)[old(len(*out))] == 0x74 && (*out)[old(len(*out))+1] == 0x72 && (*out)[old(len(*out))+2] == 0x75 && (*out)[old(len(*out))+3] == 0x65
-//@   ensures bfalse: fd.typ == proto.BOOL && old(binary.tagl(p)) > 0 && old(binary.tagv(p)) == 0 ==> err == nil && len(*out) == old(len(*out)) + 5 && (*out)[old(len(*out))] == 0x66
-//@   ensures u64len: fd.typ == proto.UINT64 && old(binary.tagl(p)) > 0 ==> err == nil && len(*out) == old(len(*out)) + strconv.u64len(old(binary.tagv(p)))
-//@   ensures u64digits: fd.typ == proto.UINT64 && old(binary.tagl(p)) > 0 ==> forall k :: 0 <= k && k < strconv.u64len(old(binary.tagv(p))) ==> \
+//@   ensures local bfalse: fd.typ == proto.BOOL && old(binary.tagl(p)) > 0 && old(binary.tagv(p)) == 0 ==> err == nil && len(*out) == old(len(*out)) + 5 && (*out)[old(len(*out))] == 0x66
+//@   ensures local u64len: fd.typ == proto.UINT64 && old(binary.tagl(p)) > 0 ==> err == nil && len(*out) == old(len(*out)) + strconv.u64len(old(binary.tagv(p)))
+//@   ensures local u64digits: fd.typ == proto.UINT64 && old(binary.tagl(p)) > 0 ==> forall k :: 0 <= k && k < strconv.u64len(old(binary.tagv(p))) ==> \
 //@       (*out)[old(len(*out)) + k] == strconv.u64dig(old(binary.tagv(p)), k)
-//@   ensures f64len: fd.typ == proto.FIX64 && old(p.Read) + 8 <= len(p.Buf) ==> err == nil && len(*out) == old(len(*out)) + strconv.u64len(protowire.le64(p.Buf, old(p.Read)))
-//@   ensures f64digits: fd.typ == proto.FIX64 && old(p.Read) + 8 <= len(p.Buf) ==> forall k :: 0 <= k && k < strconv.u64len(protowire.le64(p.Buf, old(p.Read))) ==> \
+//@   ensures local f64len: fd.typ == proto.FIX64 && old(p.Read) + 8 <= len(p.Buf) ==> err == nil && len(*out) == old(len(*out)) + strconv.u64len(protowire.le64(p.Buf, old(p.Read)))
+//@   ensures local f64digits: fd.typ == proto.FIX64 && old(p.Read) + 8 <= len(p.Buf) ==> forall k :: 0 <= k && k < strconv.u64len(protowire.le64(p.Buf, old(p.Read))) ==> \
 //@       (*out)[old(len(*out)) + k] == strconv.u64dig(protowire.le64(p.Buf, old(p.Read)), k)
-//@   ensures prefix: forall i :: 0 <= i && i < old(len(*out)) ==> (*out)[i] == old((*out)[i])
+//@   ensures local prefix: forall i :: 0 <= i && i < old(len(*out)) ==> (*out)[i] == old((*out)[i])
+//@   ensures mono: len(*out) >= old(len(*out)) && old(p.Read) <= p.Read && p.Read <= len(p.Buf)
+//@   ensures progress: err == nil ==> p.Read > old(p.Read)      // every kind consumes at least one byte: what makes the list loops terminate
+//@   ensures mem: (same(*out, old(*out)) && cap(*out) == old(cap(*out))) || fresh(*out)
 //@   modifies *out, (*out)[len(*out):cap(*out)], p.Read
+
+// unmarshalList, element kinds as for unmarshalSingular: an element error ends the conversion with an error (fix
+// 647e66d) and every successful element consumes input, so both loops terminate; the cursor never moves backwards.
+//@ spec (*BinaryConv).unmarshalList
+//@   props C08 C06
+//@   timeout 40
+//@   requires ptrs: self != nil && p != nil && out != nil && fd != nil && !samerg(out, p) && !samerg(out, *out) && !samerg(p, *out) && !samerg(fd, *out) && !samerg(self, *out) && \
+//@       !samerg(p.Buf, *out) && !samerg(fd, p) && !samerg(fd, out) && !samerg(self, out) && !samerg(self, p)
+//@   requires elem: fd.elem != nil && !samerg(fd.elem, *out) && !samerg(fd.elem, p) && !samerg(fd.elem, out) && fd.elem.typ != proto.MESSAGE && fd.elem.typ != proto.STRING && \
+//@       fd.elem.typ != proto.BYTE && fd.elem.typ != proto.FLOAT && fd.elem.typ != proto.LIST && fd.elem.typ != proto.MAP
+//@   requires plain: !self.opts.Int642String
+//@   ensures mono: old(p.Read) <= p.Read && len(*out) >= old(len(*out))
+//@   modifies *out, (*out)[len(*out):cap(*out)], p.Read
+//@   loop 1
+//@     invariant sep: !samerg(out, *out) && !samerg(p, *out) && !samerg(fd, *out) && !samerg(self, *out) && !samerg(p.Buf, *out) && !samerg(fd.elem, *out)
+//@     invariant same: same(p.Buf, old(p.Buf)) && len(p.Buf) == old(len(p.Buf)) && start <= p.Read && p.Read <= len(p.Buf) && old(p.Read) <= start && fd.elem == old(fd.elem) && \
+//@         fd.elem.typ == old(fd.elem.typ) && !self.opts.Int642String
+//@     invariant mem: len(*out) >= old(len(*out)) && ((same(*out, old(*out)) && cap(*out) == old(cap(*out))) || fresh(*out))
+//@     decreases start + len - p.Read
+//@   loop 2
+//@     invariant sep: !samerg(out, *out) && !samerg(p, *out) && !samerg(fd, *out) && !samerg(self, *out) && !samerg(p.Buf, *out) && !samerg(fd.elem, *out)
+//@     invariant same: same(p.Buf, old(p.Buf)) && len(p.Buf) == old(len(p.Buf)) && old(p.Read) <= p.Read && p.Read <= len(p.Buf) && fd.elem == old(fd.elem) && \
+//@         fd.elem.typ == old(fd.elem.typ) && !self.opts.Int642String
+//@     invariant mem: len(*out) >= old(len(*out)) && ((same(*out, old(*out)) && cap(*out) == old(cap(*out))) || fresh(*out))
+//@     decreases len(p.Buf) - p.Read
+
